@@ -92,6 +92,14 @@ def flushCmd (delay : Int) (noreply : Bool) : Bytes :=
   ofString "flush_all " ++ intDec delay ++ noreplySfx noreply ++ CRLF
 def versionCmd : Bytes := ofString "version" ++ CRLF
 def quitCmd : Bytes := ofString "quit" ++ CRLF
+/-- `_fetch_cmd` lines 1167–1174 for a command `name` that is not one of the four fetch verbs and has no
+`expire` (`stats`, `cache_memlimit`): `name`, then the checked arguments separated by single spaces if there
+are any, then CR LF -/
+def adminFetchCmd (name : Bytes) (args : List Bytes) : Bytes :=
+  name ++ (if args = [] then [] else SP :: ([SP] : Bytes).intercalate args) ++ CRLF
+/-- `shutdown()` (base.py 1051–1055) -/
+def shutdownCmd (graceful : Bool) : Bytes :=
+  ofString "shutdown" ++ (if graceful then ofString " graceful" else []) ++ CRLF
 
 /-! ## API-level arguments and `encodeCall` -/
 inductive Err | illegalInput
@@ -143,6 +151,11 @@ def mapKeyErr {α} : Except Key.Err α → Except Err α
   | .error _ => .error .illegalInput
 
 def checkKey (cfg : Cfg) (k : Key.K) : Except Err Bytes := mapKeyErr (Key.checkKey cfg.au cfg.pfx k)
+
+/-- `self.check_key(k, key_prefix=b"")`: what `_fetch_cmd` does to its `keys` when the caller passes no
+`key_prefix` — the case of `stats(*args)` and `cache_memlimit(n)`, whose "keys" are the command's arguments.
+The client's own `key_prefix` is NOT applied; `allow_unicode_keys` is. -/
+def checkArg (cfg : Cfg) (k : Key.K) : Except Err Bytes := mapKeyErr (Key.checkKey cfg.au [] k)
 
 /-- `_store_cmd` up to (not including) the connect: every command is built before anything is sent -/
 def encodeStore (cfg : Cfg) (verb : SVerb) (items : List (Key.K × Val)) (expire : IntArg)
